@@ -314,3 +314,80 @@ case(C + "ignorable", params={"key": STR}, returns=INT,
      ensures={"empty": "implies(key == '', result == 0)", "fn": "implies(key != '', result == ite(key[0].isalpha(), 0, 1))"},
      canaries={"one": "result == 1", "zero": "result == 0"},
      gen=lambda rng: {"key": rng.choice(["", "a1", "1a", "_x"])})
+
+# ---- comprehensions with two `for` clauses ---------------------------------------------------------------------------------------------------
+case(C + "busy_names", params={"glyph_sets": List(D)}, returns=Set(STR),
+     ensures={"sound": "all(any(y in gs and gs[y] > 0 for gs in glyph_sets) for y in result)",
+              "complete": "all(all(implies(gs[n] > 0, n in result) for n in gs) for gs in glyph_sets)"},
+     canaries={"all-keys": "all(all(n in result for n in gs) for gs in glyph_sets)", "empty": "result == set()"},
+     gen=lambda rng: {"glyph_sets": [sdict(rng) for _ in range(rng.randint(0, 3))]})
+case(C + "pairs_flat", params={"rows": List(INT)}, returns=List(INT),
+     ensures={"len": "len(result) == 2 * len(rows)", "first": "all(result[i] == rows[i] + 1 for i in range(len(rows)))"},
+     canaries={"once": "len(result) == len(rows)"},
+     gen=lambda rng: {"rows": ints(rng)})
+case(C + "cross", params={"xs": Set(INT), "ys": List(INT)}, returns=Set(INT),
+     ensures={"sound": "all(any(any(z == x + y and y != x for y in ys) for x in xs) for z in result)",
+              "complete": "all(all(implies(y != x, x + y in result) for y in ys) for x in xs)"},
+     canaries={"diag": "all(all(x + y in result for y in ys) for x in xs)", "empty": "result == set()"},
+     gen=lambda rng: {"xs": rng.sample(range(4), rng.randint(0, 3)), "ys": ints(rng, a=0, b=3)}, build=lambda d: {"xs": set(d["xs"]), "ys": d["ys"]})
+
+# ---- dict views are set-like: <=, ==, &, - -----------------------------------------------------------------------------------------------------
+case(C + "sub_location", params={"loc": D, "dflt": D}, returns=BOOL,
+     ensures={"v": "result == all(k in dflt and dflt[k] == loc[k] for k in loc)"}, canaries={"keys-only": "result == all(k in dflt for k in loc)", "t": "result"},
+     gen=lambda rng: {"loc": sdict(rng), "dflt": sdict(rng)})
+case(C + "extra_keys", params={"d": D, "s": Set(STR)}, returns=Set(STR),
+     ensures={"v": "all(iff(k in result, k in d and k not in s) for k in set(d) | s)"}, canaries={"all": "result == set(d)", "empty": "result == set()"},
+     gen=lambda rng: {"d": sdict(rng), "s": rng.sample(["a", "z"], rng.randint(0, 2))}, build=lambda d: {"d": d["d"], "s": set(d["s"])})
+case(C + "common_keys", params={"a": D, "b": D}, returns=Set(STR),
+     ensures={"v": "all(iff(k in result, k in a and k in b) for k in set(a) | set(b))"}, canaries={"a": "result == set(a)", "empty": "result == set()"},
+     gen=lambda rng: {"a": sdict(rng), "b": sdict(rng)})
+case(C + "same_keys", params={"a": D, "b": D}, returns=BOOL,
+     ensures={"v": "result == (all(k in b for k in a) and all(k in a for k in b))"}, canaries={"t": "result", "f": "not result"},
+     gen=lambda rng: {"a": sdict(rng, keys=("a", "b")), "b": sdict(rng, keys=("a", "b"))})
+
+# ---- f(*xs): big union over a list of sets; a symbolic list whose length the path condition fixes ----------------------------------------------
+case(C + "all_names", params={"glyph_sets": List(D)}, returns=Set(STR), raises={"TypeError": "len(glyph_sets) == 0"},
+     ensures={"sound": "all(any(n in gs for gs in glyph_sets) for n in result)", "complete": "all(all(n in result for n in gs) for gs in glyph_sets)"},
+     canaries={"first-only": "all(n in glyph_sets[0] for n in result)", "empty": "result == set()"},
+     gen=lambda rng: {"glyph_sets": [sdict(rng) for _ in range(rng.randint(0, 3))]})
+case(C + "star_known", params={"xs": List(INT)}, returns=INT, requires=["len(xs) == 3"],
+     ensures={"v": "result == xs[0] + xs[1] + xs[2]"}, canaries={"two": "result == xs[0] + xs[1]"},
+     gen=lambda rng: {"xs": [rng.randint(0, 3) for _ in range(3)]})
+case(C + "star_known", name="unknown-length", params={"xs": List(INT)}, returns=INT, expect="unsupported", msg="symbolic length")
+
+# ---- positional bridge facts (seq_bridge=True): position-wise invariants over append / + ------------------------------------------------------
+case(C + "build_trace", params={"xs": List(INT)}, returns=List(INT), seq_bridge=True,
+     ensures={"len": "len(result) == len(xs) + 1", "head": "result[0] == 0", "pos": "all(result[k + 1] == xs[k] + 1 for k in range(len(xs)))"},
+     canaries={"shift": "all(result[k] == xs[k] + 1 for k in range(len(xs)))", "short": "len(result) == len(xs)"},
+     loops={"for x in xs": Loop(index="i", invariants={"len": "len(out) == i", "pos": "all(out[k] == xs[k] + 1 for k in range(i))"})},
+     locals={"out": List(INT)},
+     gen=lambda rng: {"xs": ints(rng)})
+
+# ---- TupleOf(T), isinstance(x, tuple), lexicographic order, order on Union values ---------------------------------------------------------------
+from pyvc.api import TupleOf, Union  # noqa: E402
+
+SIDE = Union(STR, TupleOf(STR))
+case(C + "side_key", params={"is_class": BOOL, "side": SIDE}, returns=INT,
+     ensures={"str": "implies(isinstance(side, str), result == 0)", "tup": "implies(isinstance(side, tuple), result >= 0)"},
+     canaries={"zero": "result == 0"},
+     gen=lambda rng: {"is_class": rng.random() < 0.5, "side": rng.choice(["a", ["x", "y"], []])},
+     build=lambda d: {"is_class": d["is_class"], "side": tuple(d["side"]) if isinstance(d["side"], list) else d["side"]})
+case(C + "pair_lt", params={"a_cls": BOOL, "a_side": SIDE, "b_cls": BOOL, "b_side": SIDE}, returns=BOOL,
+     # the sides are compared only when the flags are equal; then they must be of the same kind (str / tuple)
+     requires=["implies(a_cls == b_cls, isinstance(a_side, str) == isinstance(b_side, str))"],
+     ensures={"flag": "implies(not a_cls and b_cls, result)", "flag2": "implies(a_cls and not b_cls, not result)",
+              "strs": "implies(a_cls == b_cls and isinstance(a_side, str) and isinstance(b_side, str), result == (a_side < b_side))"},
+     canaries={"t": "result", "f": "not result"},
+     gen=lambda rng: (lambda k: {"a_cls": rng.random() < 0.5, "b_cls": rng.random() < 0.5, "a": rng.choice(k), "b": rng.choice(k)})(rng.choice([["a", "b", "c"], [["x"], ["x", "y"], []]])),
+     build=lambda d: {"a_cls": d["a_cls"], "b_cls": d["b_cls"] if True else 0, "a_side": tuple(d["a"]) if isinstance(d["a"], list) else d["a"], "b_side": tuple(d["b"]) if isinstance(d["b"], list) else d["b"]})
+case(C + "pair_lt", name="unguarded", params={"a_cls": BOOL, "a_side": SIDE, "b_cls": BOOL, "b_side": SIDE}, returns=BOOL,
+     must_fail=["safe.TypeError"], gen=lambda rng: {"a": "a"}, build=lambda d: {"a_cls": True, "a_side": "a", "b_cls": True, "b_side": "b"}, n=2)
+case(C + "lex_lt", params={"a": TupleOf(INT), "b": TupleOf(INT)}, returns=BOOL,
+     ensures={"empty": "implies(len(a) == 0, result == (len(b) > 0))", "first": "implies(len(a) > 0 and len(b) > 0 and a[0] != b[0], result == (a[0] < b[0]))",
+              "irrefl": "implies(a == b, not result)"},
+     canaries={"by-len": "result == (len(a) < len(b))", "t": "result"},
+     gen=lambda rng: {"a": ints(rng, a=0, b=2), "b": ints(rng, a=0, b=2)}, build=lambda d: {"a": tuple(d["a"]), "b": tuple(d["b"])})
+case(C + "as_tuple", params={"xs": List(INT)}, returns=TupleOf(INT), locals={"t": TupleOf(INT)},
+     ensures={"same": "len(result) == len(xs) and all(result[i] == xs[i] for i in range(len(xs)))", "kind": "isinstance(result, tuple)"},
+     canaries={"list": "isinstance(result, list)", "eq-list": "result == xs"},
+     gen=lambda rng: {"xs": ints(rng)})
